@@ -27,6 +27,10 @@ type C03Case struct {
 	// CrashAt-th store operation, the live database discards what was not
 	// committed (Cancel) and is reopened in place.
 	CrashAt int `json:"crash_at,omitempty"`
+	// ReopenBefore: steps before which the node is shut down cleanly (flush)
+	// and started again on the same database (a restarted store has no record
+	// of its last flush, so its time-based flush is due at once).
+	ReopenBefore []int `json:"reopen_before,omitempty"`
 }
 
 func genC03(t *rapid.T) C03Case {
@@ -35,7 +39,7 @@ func genC03(t *rapid.T) C03Case {
 	cfg.ExtraCorruptions = []string{"timestamp-future"}
 	cfg.BadIntentPct = 2
 	cfg.ForkPct = 28
-	cfg.Kinds = []string{"pay", "sf", "form", "fcop", "fcop", "attest", "arb"}
+	cfg.Kinds = []string{"pay", "sf", "form", "formprove", "fcop", "fcop", "attest", "arb"}
 	if !kit.Thorough() {
 		cfg.MaxBlocks = 18
 	}
@@ -57,6 +61,17 @@ func genC03(t *rapid.T) C03Case {
 	if tc.SharedWindows {
 		for i := range c.Steps {
 			c.Steps[i].Malleated, c.Steps[i].Validated = false, false
+		}
+	}
+	if kit.Chance(t, 30, "reopenroll") {
+		for k := 0; k < 1+kit.Uniform(t, 2, "nreopen"); k++ {
+			r := 1 + kit.Uniform(t, max(1, len(c.Steps)-1), "reopenat")
+			c.ReopenBefore = append(c.ReopenBefore, r)
+			if r < len(c.Steps) && !tc.SharedWindows {
+				// the first delivery after the restart prefers the pre-validated
+				// call (honoured only inside its documented domain)
+				c.Steps[r].Validated, c.Steps[r].Malleated = true, false
+			}
 		}
 	}
 	if kit.Chance(t, 60, "crashroll") {
@@ -94,11 +109,14 @@ func openFromImage(tr *kit.Tree, img kvm.Image) (n *kit.Node, err error) {
 	return kit.OpenNode(tr, be)
 }
 
-func submitAll(tr *kit.Tree, node *kit.Node, steps []kit.SubmitStep, audit bool) error {
+func submitAll(tr *kit.Tree, node *kit.Node, steps []kit.SubmitStep, audit bool, plain ...bool) error {
 	for si, st := range steps {
 		_, blocks, states, validated := tr.ResolveBatch(st, node.ValidatedParent)
 		if len(blocks) == 0 {
 			continue
+		}
+		if len(plain) > 0 && plain[0] {
+			validated = false // catch up through AddBlocks only
 		}
 		if validated {
 			for _, b := range blocks {
@@ -153,7 +171,30 @@ func runC03(c C03Case, cs *kit.CaseStats) error {
 	node.Hooked.AfterApply = hook
 	node.Hooked.AfterRevert = hook
 
+	reopenBefore := map[int]bool{}
+	for _, r := range c.ReopenBefore {
+		reopenBefore[r] = true
+	}
 	for si, st := range c.Steps {
+		if reopenBefore[si] {
+			// clean restart on the same database
+			node.Store.Flush()
+			n2, rerr := kit.OpenNode(tr, be)
+			if rerr != nil {
+				return fmt.Errorf("step %d: restarting the node on its own database failed: %v", si, rerr)
+			}
+			if n2.CM.Tip() != node.CM.Tip() {
+				return fmt.Errorf("step %d: after a clean restart the node is on %v, before it was on %v", si, n2.CM.Tip(), node.CM.Tip())
+			}
+			for id := range node.Submitted {
+				n2.Submitted[id] = true
+			}
+			n2.MaxHeight = node.MaxHeight
+			node = n2
+			node.Hooked.AfterApply = hook
+			node.Hooked.AfterRevert = hook
+			cs.Class("clean-restart-mid-run")
+		}
 		_, blocks, states, validated := tr.ResolveBatch(st, node.ValidatedParent)
 		if len(blocks) == 0 {
 			continue
@@ -268,7 +309,13 @@ func runC03(c C03Case, cs *kit.CaseStats) error {
 			cs.Class("image-inside-failed-reorg")
 		}
 		// catch up: the whole schedule again, in its original order
-		if err := submitAll(tr, rn, c.Steps, true); err != nil {
+		// (every other image catches up through AddBlocks alone: the blocks may
+		// reach a restarted node by any path)
+		plainCatchUp := examined%2 == 0
+		if plainCatchUp {
+			where += ", catch-up through AddBlocks only"
+		}
+		if err := submitAll(tr, rn, c.Steps, true, plainCatchUp); err != nil {
 			return fmt.Errorf("%s: catch-up: %w", where, err)
 		}
 		rs := rn.CM.TipState()
